@@ -421,7 +421,11 @@ func eqTopKFam(redis bool, fam int) eqKind {
 		build: func(c *Ctx, v int) interface{} { return newTopK(cfgs[v].k, cfgs[v].er, cfgs[v].acc, redis) },
 		feed: func(c *Ctx, o interface{}, ops []int) {
 			for _, j := range ops {
-				o.(topkHandle).Insert(eqPool[j%len(eqPool)], uint64(1+j%3))
+				cnt := uint64(1 + j%3)
+				if !redis && j%13 == 5 {
+					cnt = 1<<53 + 1 // in memory the counts are uint64s: not every one of them is a float64
+				}
+				o.(topkHandle).Insert(eqPool[j%len(eqPool)], cnt)
 			}
 		},
 		export: func(o interface{}) ([]byte, error) { return o.(topkHandle).Export() },
@@ -600,6 +604,12 @@ func equalsKind(c *Ctx, k eqKind) {
 	}
 	k.feed(c, a, hist)
 	check := func(rel string, b interface{}) { eqCheck(c, k, a, b, rel, hist) }
+	// a twin with the same history that is NEVER passed to Equals: comparing must not change what
+	// is compared (checked at the end, after both have received the same further operations)
+	twin := k.build(c, 0)
+	if twin != nil {
+		k.feed(c, twin, hist)
+	}
 	// identical history
 	b := k.build(c, 0)
 	k.feed(c, b, hist)
@@ -650,6 +660,25 @@ func equalsKind(c *Ctx, k eqKind) {
 				c.fail([]string{"C17"}, k.name+"-equal-but-answers-differ", fmt.Sprintf("%s: two structures with the same history of operations answer differently: %.150s vs %.150s", k.name, qa, qb), map[string]interface{}{"kind": k.name, "history": hist, "more": more})
 			}
 			hist = append(append([]int(nil), hist...), more...)
+		}
+	}
+	if twin != nil {
+		// `hist` is what a has received so far (possibly extended above); bring the twin up to date
+		// and go on with both
+		moreT := append(randHist(c), 20, 21, 22, 23)
+		twin2 := k.build(c, 0)
+		if twin2 != nil {
+			k.feed(c, twin2, hist)
+			// compared through the queries (Values, counts, lookups): the internal arrangement of a
+			// structure that has been compared is allowed to differ, its behaviour is not
+			sa0, st0 := jsonQueries(k.name, a), jsonQueries(k.name, twin2)
+			k.feed(c, a, moreT)
+			k.feed(c, twin2, moreT)
+			sa, st := jsonQueries(k.name, a), jsonQueries(k.name, twin2)
+			if sa0 == st0 && sa != st {
+				c.fail([]string{"C17"}, k.name+"-equals-changes-operand", fmt.Sprintf("%s: a structure that has been an operand of Equals and a twin with the same history that never was: after the same further operations they differ: %.150s vs %.150s", k.name, sa, st), map[string]interface{}{"kind": k.name, "history": hist, "more": moreT})
+			}
+			hist = append(append([]int(nil), hist...), moreT...)
 		}
 	}
 	// a handle that has been compared before (b2 above) takes over a's content by an Import in
